@@ -22,9 +22,12 @@ FormDefs == [Fm1 |-> [m |-> <<2, 0, 0, 2, 10, 10>>, own |-> TRUE, xo |-> <<>>, f
              Fm3 |-> [m |-> <<1, 0, 0, 1, 5, 0>>, own |-> TRUE, xo |-> [Fm1 |-> "Fm4", Fm3 |-> "Fm4"], fo |-> [F1 |-> "F1b"],
                       body |-> <<Op("BT"), Nm("F1"), N(10), Op("Tf"), Str(<<66>>), Op("Tj"), Op("ET"), Nm("Fm1"), Op("Do"),
                                  Nm("Fm3"), Op("Do"), Nm("Fm2"), Op("Do"), Op("BT"), Nm("F1"), N(10), Op("Tf"), Str(<<65>>), Op("Tj"), Op("ET")>>],
+             \* a form that sets colours without choosing a colour space: the spaces are the caller's (ISO 8.10.1)
+             Fm5 |-> [m |-> Ident, own |-> FALSE, xo |-> <<>>, fo |-> <<>>,
+                      body |-> <<N(1), N(0), N(1), Op("sc"), N(0), N(1), N(1), N(0), Op("SC"), N(0), N(0), N(2), N(2), Op("re"), Op("B")>>],
              Fm4 |-> [m |-> <<1, 0, 0, 1, 0, 7>>, own |-> FALSE, xo |-> <<>>, fo |-> <<>>,
                       body |-> <<N(1), N(0), N(0), Op("rg"), Op("BT"), Nm("F1"), N(10), Op("Tf"), Str(<<65, 66>>), Op("Tj"), Op("ET")>>]]
-PageXODef == [Fm1 |-> "Fm1", Fm2 |-> "Fm2", Fm3 |-> "Fm3"]
+PageXODef == [Fm1 |-> "Fm1", Fm2 |-> "Fm2", Fm3 |-> "Fm3", Fm5 |-> "Fm5"]
 PageFontsDef == [F1 |-> "F1", F2 |-> "F2"]
 
 PreText == <<Op("BT"), Nm("F1"), N(10), Op("Tf")>>
@@ -37,7 +40,7 @@ GPos == { Ins("Td", <<N(3), N(0)>>), Ins("Td", <<N(0), N(-2)>>), Ins("TD", <<N(1
           Ins("Td", <<N(0), N(0)>>), Ins("TD", <<N(0), N(0)>>) }
 GSpace == { Ins("Tc", <<N(1)>>), Ins("Tc", <<N(3)>>), Ins("Tw", <<N(2)>>), Ins("Tz", <<N(200)>>), Ins("Tz", <<N(50)>>),
             Ins("Ts", <<N(2)>>), Ins("Tj", <<Str(ASB)>>), Ins("Tj", <<Str(<<67, 65, 68, 65>>)>>), Ins("TJ", <<Arr(<<Str(A), N(-100), Str(AB)>>)>>),
-            Ins("TJ", <<Arr(<<N(-200), Str(A)>>)>>), Ins("\"", <<N(2), N(1), Str(AB)>>),
+            Ins("TJ", <<Arr(<<N(-200), Str(A)>>)>>), Ins("TJ", <<Arr(<<N(-500)>>)>>), Ins("TJ", <<Arr(<<Str(<<>>), N(300), Str(<<>>)>>)>>), Ins("\"", <<N(2), N(1), Str(AB)>>),
             Ins("Tf", <<Nm("F2"), N(10)>>) \o Ins("Tj", <<Str(<<0, 65, 0, 32>>)>>) \o Ins("Tf", <<Nm("F1"), N(10)>>) }
 GState == { <<Op("q")>>, <<Op("Q")>>, Ins("cm", <<N(2), N(0), N(0), N(2), N(1), N(1)>>), Ins("cm", <<N(0), N(1), N(-1), N(0), N(0), N(0)>>),
             Ins("cm", <<N(1), N(1), N(0), N(1), N(0), N(0)>>),      \* a pure shear: b # 0, c = 0
@@ -59,7 +62,7 @@ Painter == Ins("re", <<N(0), N(0), N(2), N(2)>>) \o <<Op("B")>>
 GColor == { Ins("g", <<N(1)>>), Ins("G", <<N(0)>>), Ins("rg", <<N(1), N(0), N(0)>>), Ins("RG", <<N(0), N(1), N(0)>>),
             Ins("k", <<N(0), N(0), N(0), N(1)>>), Ins("K", <<N(1), N(0), N(0), N(0)>>), Ins("cs", <<Nm("DeviceRGB")>>), Ins("CS", <<Nm("DeviceCMYK")>>),
             <<N(1), N(0), N(1), Op("sc")>>, <<N(1), Op("scn")>>, <<N(0), N(1), N(1), N(0), Op("SCN")>>, <<Op("q")>>, <<Op("Q")>>,
-            Painter, Ins("Tj", <<Str(A)>>),
+            Painter, Ins("Tj", <<Str(A)>>), Ins("Do", <<Nm("Fm5")>>),
             \* a colour space selected between q and Q: the space in force afterwards is the one saved by q
             <<Op("q")>> \o Ins("cs", <<Nm("DeviceRGB")>>) \o <<Op("Q")>>, <<Op("q")>> \o Ins("CS", <<Nm("DeviceCMYK")>>) \o <<Op("Q")>>,
             <<Op("q")>> \o Ins("rg", <<N(0), N(1), N(0)>>) \o <<Op("Q")>>, <<N(1), Op("SC")>> }
@@ -89,10 +92,12 @@ BadOps == { <<Op("Tc")>>, <<Nm("x"), Op("Tc")>>, <<N(3), Op("Td")>>, <<Nm("x"), 
             <<Nm("x"), N(0), N(0), N(1), N(0), N(0), Op("cm")>>, <<Op("w")>>, <<Nm("x"), Op("w")>>, <<N(1), Op("m")>>, <<Op("l")>>,
             <<N(1), N(2), N(3), Op("re")>>, <<N(1), N(1), Op("rg")>>, <<Nm("x"), N(1), N(1), Op("rg")>>, <<Op("g")>>, <<Op("k")>>,
             <<Nm("DeviceRGB"), Op("cs"), N(1), Op("scn")>>, <<Nm("DeviceRGB"), Op("cs"), Op("sc")>>, <<Nm("DeviceCMYK"), Op("CS"), N(1), N(0), Op("SCN")>>,
+            <<Nm("x"), Op("g")>>, <<Nm("x"), Op("G")>>, <<Nm("x"), N(0), N(0), N(1), Op("k")>>, <<N(0), N(0), Nm("x"), N(1), Op("K")>>,
             <<Op("Tz")>>, <<Op("TL")>>, <<Op("Ts")>>, <<Op("Tw")>>, <<Nm("x"), Op("Tz")>>, <<Op("Do")>>, <<N(1), Op("Do")>>, <<Op("d")>>,
             <<N(1), N(2), N(3), N(4), N(5), Op("c")>>, <<N(1), Op("v")>>, <<Op("TD")>>, <<Op("'")>>, <<Op("zz")>>, <<N(1), Op("zz")>> }
-GoodPre == <<N(1), Op("Tc"), N(2), Op("w"), N(1), N(0), N(0), Op("rg"), N(2), N(0), Op("Td"), Str(A), Op("Tj")>>
-Probe == <<Str(AB), Op("Tj")>> \o Painter \o <<Op("T*"), Str(A), Op("Tj")>>
+GoodPre == <<N(1), Op("Tc"), N(2), Op("w"), N(1), N(0), N(0), Op("rg"), N(0), N(0), N(1), Op("RG"), N(2), N(0), Op("Td"), Str(A), Op("Tj")>>
+\* (the probe also sets a colour with sc / SC: three operands are right for the colour spaces GoodPre left in force)
+Probe == <<Str(AB), Op("Tj")>> \o Painter \o <<N(0), N(1), N(0), Op("sc"), N(0), N(0), N(1), Op("SC"), Op("T*"), Str(A), Op("Tj")>> \o Painter
 
 RECURSIVE Flat(_)
 Flat(q) == IF q = <<>> THEN <<>> ELSE Head(q) \o Flat(Tail(q))
